@@ -1,4 +1,4 @@
-(* PEXEC, part 7: the pipeline theorem.  pexec_gen srt q p e = Some t  ->  sem_gen fl_pandas p e = Some t' with t refines t'
+(* PEXEC, part 7: the pipeline theorem.  pexec_gen srt arr q p e = Some t  ->  sem_gen fl_pandas p e = Some t' with t refines t'
    (same column set, the cells of t' read by name, rows up to a permutation), by induction over the pipeline with one
    refinement lemma per step kind (parts 2-6), the congruence of every Sem operator under column reordering (C07, ComposeP5)
    and under row permutation (C18, PermP1..4).  All statements proved. *)
@@ -140,6 +140,7 @@ Definition window_situation (wd : bool) (w : window) : bool := wd || Nat.ltb 0 (
 Section Main.
   Variable srt : sorter.
   Hypothesis srt_ok : sorter_ok srt.
+  Variable arr : arranger.
   Variable q : pquirks.
 
   (* refinement lemmas of the two step kinds proved in parts 5 and 6, taken as parameters here so that this file does not depend
@@ -149,7 +150,7 @@ Section Main.
     p = OJoin a b on_a on_b jt ->
     width_ok l -> width_ok r -> same_set (cols l) (column_names a) -> same_set (cols r) (column_names b) ->
     join_keys_clean (column_names a) (column_names b) on_a on_b = true ->
-    px_join (declared_cols p) on_a on_b jt l r = Some x ->
+    px_join_with arr (declared_cols p) on_a on_b jt l r = Some x ->
     refines x (sem_join false on_a on_b jt l r) /\ width_ok x.
   Variable window_ok : bool.
   Hypothesis window_step : window_ok = true -> forall ops w u x cs,
@@ -186,7 +187,7 @@ Section Main.
 
   Theorem pexec_refines p : forall e t,
     wf_op_b p = true -> covered p = true -> total_orders fl_pandas p e -> exact_group_keys fl_pandas p e ->
-    pexec_gen srt q p e = Some t ->
+    pexec_gen srt arr q p e = Some t ->
     exists t', sem_gen fl_pandas p e = Some t' /\ refines t t' /\ width_ok t.
   Proof.
     induction p as [n cs|s IH ops wd w|s IH ops gb|s IH x|s IH cs|s IH cs|s IH m|s IH m dels|s IH cs rev lim|a IHa b IHb on_a on_b jt|a IHa b IHb idc an bn];
@@ -195,7 +196,7 @@ Section Main.
       destruct (dict_get e n) as [df|]; cbn [obind] in H; [|discriminate]. exists (sem_select_cols cs df).
       rewrite (px_table_exact _ _ _ H). split; [reflexivity|]. split; [apply refines_refl|apply width_select_cols].
     - (* extend *)
-      destruct (pexec_gen srt q s e) as [u|] eqn:Eu; cbn [obind] in H; [|discriminate].
+      destruct (pexec_gen srt arr q s e) as [u|] eqn:Eu; cbn [obind] in H; [|discriminate].
       cbn [wf_op_b] in W. apply andb_true_iff in W. destruct W as [_ W]. apply andb_true_iff in W. destruct W as [W Ww].
       apply andb_true_iff in W. destruct W as [W Nops]. apply andb_true_iff in W. destruct W as [Ws Nk].
       cbn [covered] in Cv. apply andb_true_iff in Cv. destruct Cv as [Cs Cw]. cbn [total_orders] in TO. destruct TO as [TOs TOw].
@@ -237,7 +238,7 @@ Section Main.
           -- intros b0 _ Wb Eb. apply extend_eqv; assumption.
           -- intros b0 Cb Pb. destruct (extend_perm fl_pandas ops b0 u' Cb Pb) as [C1 P1]. split; assumption.
     - (* project *)
-      destruct (pexec_gen srt q s e) as [u|] eqn:Eu; cbn [obind] in H; [|discriminate].
+      destruct (pexec_gen srt arr q s e) as [u|] eqn:Eu; cbn [obind] in H; [|discriminate].
       cbn [wf_op_b] in W. apply andb_true_iff in W. destruct W as [_ W]. apply andb_true_iff in W. destruct W as [W Wagg].
       apply andb_true_iff in W. destruct W as [Ws Wgb].
       cbn [covered] in Cv. cbn [total_orders] in TO. cbn [exact_group_keys] in EG. destruct EG as [EGs EGk].
@@ -255,7 +256,7 @@ Section Main.
       + intros b0 Cb Pb. destruct (project_perm fl_pandas ops gb u' b0 (eq_sym Cb) (Permutation_sym Pb) (EGk u' Eu')) as [C1 P1].
         split; [symmetry; exact C1|apply Permutation_sym, P1].
     - (* select_rows *)
-      destruct (pexec_gen srt q s e) as [u|] eqn:Eu; cbn [obind] in H; [|discriminate].
+      destruct (pexec_gen srt arr q s e) as [u|] eqn:Eu; cbn [obind] in H; [|discriminate].
       cbn [wf_op_b] in W. apply andb_true_iff in W. destruct W as [_ Ws].
       cbn [covered] in Cv. cbn [total_orders] in TO. cbn [exact_group_keys] in EG.
       destruct (IH e u Ws Cv TO EG Eu) as [u' [Eu' [Rf Wu]]]. rewrite Eu'. cbn [option_map].
@@ -265,7 +266,7 @@ Section Main.
       + intros b0 _ _ Eb. apply select_rows_eqv, Eb.
       + intros b0 Cb Pb. split; [cbn [cols sem_select_rows]; exact Cb|apply select_rows_perm; assumption].
     - (* select_columns *)
-      destruct (pexec_gen srt q s e) as [u|] eqn:Eu; cbn [obind] in H; [|discriminate].
+      destruct (pexec_gen srt arr q s e) as [u|] eqn:Eu; cbn [obind] in H; [|discriminate].
       cbn [wf_op_b] in W. apply andb_true_iff in W. destruct W as [_ Ws].
       cbn [covered] in Cv. cbn [total_orders] in TO. cbn [exact_group_keys] in EG.
       destruct (IH e u Ws Cv TO EG Eu) as [u' [Eu' [Rf Wu]]]. rewrite Eu'. cbn [option_map].
@@ -275,7 +276,7 @@ Section Main.
       + intros b0 _ _ Eb. apply select_cols_eqv; [apply same_set_refl|exact Eb].
       + intros b0 Cb Pb. split; [reflexivity|apply select_cols_perm; assumption].
     - (* drop_columns *)
-      destruct (pexec_gen srt q s e) as [u|] eqn:Eu; cbn [obind] in H; [|discriminate].
+      destruct (pexec_gen srt arr q s e) as [u|] eqn:Eu; cbn [obind] in H; [|discriminate].
       cbn [wf_op_b] in W. apply andb_true_iff in W. destruct W as [_ Ws].
       cbn [covered] in Cv. cbn [total_orders] in TO. cbn [exact_group_keys] in EG.
       destruct (IH e u Ws Cv TO EG Eu) as [u' [Eu' [Rf Wu]]]. rewrite Eu'. cbn [option_map].
@@ -285,7 +286,7 @@ Section Main.
       + intros b0 _ _ Eb. apply drop_cols_eqv, Eb.
       + intros b0 Cb Pb. unfold sem_drop_cols. rewrite Cb. split; [reflexivity|apply select_cols_perm; assumption].
     - (* rename_columns *)
-      destruct (pexec_gen srt q s e) as [u|] eqn:Eu; cbn [obind] in H; [|discriminate].
+      destruct (pexec_gen srt arr q s e) as [u|] eqn:Eu; cbn [obind] in H; [|discriminate].
       cbn [wf_op_b] in W. apply andb_true_iff in W. destruct W as [_ Ws].
       cbn [covered] in Cv. cbn [total_orders] in TO. cbn [exact_group_keys] in EG.
       destruct (IH e u Ws Cv TO EG Eu) as [u' [Eu' [Rf Wu]]]. rewrite Eu'. cbn [option_map].
@@ -295,7 +296,7 @@ Section Main.
       + intros b0 Cb _ Eb. apply rename_eqv; [|exact Eb]. rewrite Cb, Cu'. apply NoDup_map_inj_on. exact ND.
       + intros b0 Cb Pb. split; [cbn [cols sem_rename]; rewrite Cb; reflexivity|exact Pb].
     - (* map_columns *)
-      destruct (pexec_gen srt q s e) as [u|] eqn:Eu; cbn [obind] in H; [|discriminate].
+      destruct (pexec_gen srt arr q s e) as [u|] eqn:Eu; cbn [obind] in H; [|discriminate].
       cbn [wf_op_b] in W. apply andb_true_iff in W. destruct W as [_ W]. apply andb_true_iff in W. destruct W as [Ws Wm].
       cbn [covered] in Cv. cbn [total_orders] in TO. cbn [exact_group_keys] in EG.
       destruct (IH e u Ws Cv TO EG Eu) as [u' [Eu' [Rf Wu]]]. rewrite Eu'. cbn [option_map].
@@ -310,7 +311,7 @@ Section Main.
         * apply pd_select_inv in H. destruct H as [-> _]. apply width_select_cols.
         * inversion H; subst. rewrite pd_rename_sem. apply width_rename, Wu.
     - (* order_rows *)
-      destruct (pexec_gen srt q s e) as [u|] eqn:Eu; cbn [obind] in H; [|discriminate].
+      destruct (pexec_gen srt arr q s e) as [u|] eqn:Eu; cbn [obind] in H; [|discriminate].
       cbn [wf_op_b] in W. apply andb_true_iff in W. destruct W as [_ Ws].
       cbn [covered] in Cv. cbn [total_orders] in TO. destruct TO as [TOs TOl]. cbn [exact_group_keys] in EG.
       destruct (IH e u Ws Cv TOs EG Eu) as [u' [Eu' [Rf Wu]]]. rewrite Eu'. cbn [option_map].
@@ -318,8 +319,8 @@ Section Main.
       eexists. split; [reflexivity|]. split; [|apply (px_order_width srt cs rev lim u t srt_ok Wu H)].
       apply (px_order_refines2 srt cs rev lim u u' t srt_ok Rf Wu'); [|exact H]. intros Nl. apply (TOl Nl u' Eu').
     - (* natural_join *)
-      destruct (pexec_gen srt q a e) as [l|] eqn:El; cbn [obind] in H; [|discriminate].
-      destruct (pexec_gen srt q b e) as [r|] eqn:Er; cbn [obind] in H; [|discriminate].
+      destruct (pexec_gen srt arr q a e) as [l|] eqn:El; cbn [obind] in H; [|discriminate].
+      destruct (pexec_gen srt arr q b e) as [r|] eqn:Er; cbn [obind] in H; [|discriminate].
       cbn [wf_op_b] in W. apply andb_true_iff in W. destruct W as [_ W]. apply andb_true_iff in W. destruct W as [W Wj].
       apply andb_true_iff in W. destruct W as [Wa Wb].
       cbn [covered] in Cv. apply andb_true_iff in Cv. destruct Cv as [Cv Jok]. apply andb_true_iff in Cv. destruct Cv as [Ca Cb].
@@ -337,8 +338,8 @@ Section Main.
       + intros x0 y0 _ _ _ _ Ex Ey. apply join_eqv; assumption.
       + intros x0 y0 Cx Cy Px Py. split; [unfold sem_join; cbn [cols]; rewrite Cx, Cy; reflexivity|apply join_perm; assumption].
     - (* concat_rows *)
-      destruct (pexec_gen srt q a e) as [l|] eqn:El; cbn [obind] in H; [|discriminate].
-      destruct (pexec_gen srt q b e) as [r|] eqn:Er; cbn [obind] in H; [|discriminate].
+      destruct (pexec_gen srt arr q a e) as [l|] eqn:El; cbn [obind] in H; [|discriminate].
+      destruct (pexec_gen srt arr q b e) as [r|] eqn:Er; cbn [obind] in H; [|discriminate].
       cbn [wf_op_b] in W. apply andb_true_iff in W. destruct W as [_ W]. apply andb_true_iff in W. destruct W as [W Wc].
       apply andb_true_iff in W. destruct W as [Wa Wb].
       cbn [covered] in Cv. apply andb_true_iff in Cv. destruct Cv as [Ca Cb].
